@@ -62,7 +62,11 @@ pub fn index_voice(bytes: &[u8]) -> Option<VoiceIndex> {
     Some(VoiceIndex { data_start, lines, markers, ranges, numbers })
 }
 
-pub const NUMBER_REPLACEMENTS: &[&str] = &["0", "1", "+1", "-1", "4294967296", "18446744073709551615", "18446744073709551616", "-1", "abc", "99999999999999999999999999", ""];
+pub const NUMBER_REPLACEMENTS: &[&str] = &[
+    "0", "1", "+1", "-1", "4294967296", "18446744073709551615", "18446744073709551616", "-1", "abc", "99999999999999999999999999", "",
+    // valid UTF-8, not ASCII: full-width digits (Japanese IME), superscript, digit + multi-byte tail
+    "\u{ff14}8000", "\u{b2}40", "5\u{ff10}", "\u{e9}",
+];
 
 /// Replace the numeric token `tok` by replacement `r` ("+1"/"-1" are relative to its value).
 pub fn replace_number(bytes: &[u8], tok: &std::ops::Range<usize>, r: usize) -> Vec<u8> {
@@ -267,11 +271,19 @@ pub fn apply_fault(t: &mut Tape, bytes: &[u8]) -> (Vec<u8>, String) {
             (out, "byte-flip-in-text".into())
         }
         6 => {
-            // non-UTF-8 byte in the header
             let mut out = bytes.to_vec();
             let p = t.below(idx.data_start.max(1));
-            out.insert(p, *t.pick(&[0xFFu8, 0xC0, 0x80, 0xFE]));
-            (out, "non-utf8-header".into())
+            if t.chance(0.5) {
+                // non-UTF-8 byte in the header
+                out.insert(p, *t.pick(&[0xFFu8, 0xC0, 0x80, 0xFE]));
+                (out, "non-utf8-header".into())
+            } else {
+                // valid but non-ASCII character replacing one header byte (or the first digit of a number)
+                let p = if !idx.numbers.is_empty() && t.chance(0.6) { idx.numbers[t.below(idx.numbers.len())].start } else { p };
+                let ch = *t.pick(&["\u{ff11}", "\u{e9}", "\u{3042}", "\u{1F600}", "\u{b2}"]);
+                out.splice(p..(p + 1).min(out.len()), ch.bytes());
+                (out, "utf8-char-in-header".into())
+            }
         }
         _ => {
             // flip a byte in a binary PDF block (counts or floats)
